@@ -493,6 +493,10 @@ func (e *Exec) evalGhostBuiltin(st *State, call *ast.CallExpr, name string) Term
 		if len(e.frames) > 1 {
 			// evaluated at a call site of the function whose contract mentions its own call history
 			if t := e.typeOf(call); t != nil {
+				if id, ok := call.Fun.(*ast.IndexExpr); ok && id != nil {
+					// __lastretT[T]: the result has T's sort (an Int here made every caller's query ill-sorted)
+					return e.Ctx.Fresh("lastret_"+sanitize(name), e.S.SortOf(t))
+				}
 				return e.Ctx.Fresh("lastret_"+sanitize(name), SInt)
 			}
 		}
